@@ -303,6 +303,16 @@ def main(argv=None):
         try:
             from . import replay as rpl
             found = rpl.search(prop, {'function': None}, seed)
+            if not (found and found.get('input')):
+                und_units = {n for n, _ in undecided}
+                for r_ in results:
+                    if r_.unit.name in und_units:
+                        for op in r_.unit.props:
+                            if op != prop and not (found and found.get('input')):
+                                f2 = rpl.search(op, {'function': None}, seed)
+                                if f2 and f2.get('input'):
+                                    f2['replay_how'] = f2.get('replay_how', '') + ' (battery of %s, which owns the undecided unit %s)' % (op, r_.unit.name)
+                                    found = f2
         except Exception as e:
             found = None
         if found and found.get('input'):
